@@ -810,6 +810,7 @@ func (ds *AnySource) writeControlStart(config *WriteControlConfig) error {
 			filename := fmt.Sprintf(filenamePattern, dsp.Name, "ljh3")
 			dsp.DataPublisher.SetLJH3(i, timebase, nrows, ncols, ds.subframeDivisions,
 				ds.subframeOffsets[i], filename)
+			dsp.DataPublisher.SetLJH3Position(rowNum, colNum)
 		}
 	}
 	return ds.writingState.Start(filenamePattern, path, config)
